@@ -407,7 +407,7 @@ def inproc_shard(arg):
             planfile = os.path.join(root, "inproc.json")
             with open(planfile, "w") as f:
                 json.dump({"invocations": invs}, f)
-            p = subprocess.run([os.path.join(vp.BIN, "vpbp")], env={"PATH": "/usr/bin:/bin", "VPBP_INPROC": planfile}, stdout=subprocess.PIPE, stderr=subprocess.PIPE, timeout=60)
+            p = subprocess.run([os.path.join(vp.BIN, "vpbp")], env=dict(vp.hostile_env(), PATH="/usr/bin:/bin", VPBP_INPROC=planfile), stdout=subprocess.PIPE, stderr=subprocess.PIPE, timeout=60)
             case = {"kind": "inproc", "seq": seq, "calls": [(w["phase"], w["beh"], w["missing"]) for w in wants]}
             for k, w in enumerate(wants):
                 sh.evaluations += 1
